@@ -218,6 +218,25 @@ pub fn tok_history() {
     cover!(first && dynamic, "first entity destroyed dynamically");
 }
 
+fn clone_ran_under_mut_borrow(_id: u8) {
+    panic!("Clone::clone ran although a column of the archetype is mutably borrowed: a refused clone leaks what it already cloned");
+}
+
+/// clone is documented to panic when a column is mutably borrowed. It must refuse BEFORE it
+/// clones anything: component clones made before the refusal belong to no world (leak).
+pub fn tok_refused_clone<const N: usize>() {
+    let (world, m) = tok_state::<N>();
+    sym::assume(m.len > 0);
+    let guard = world.arch_tok.borrow_slice_mut::<Zt>(); // the LAST column
+    unsafe { ON_CLONE = Some(clone_ran_under_mut_borrow) };
+    let c = world.clone();
+    cover!(true, "UNREACHABLE: clone succeeded although a column is mutably borrowed");
+    std::mem::forget(c);
+    drop(guard);
+    std::mem::forget(world);
+}
+
+harness! { fn c04_refused_clone_2() unwind(10) { tok_refused_clone::<2>() } }
 harness! { fn c04_destroy_typed_3() unwind(10) { tok_destroy::<3>(0) } }
 harness! { fn c04_destroy_direct_forget_3() unwind(10) { tok_destroy::<3>(1) } }
 harness! { fn c04_destroy_any_3() unwind(10) { tok_destroy::<3>(2) } }
